@@ -130,9 +130,20 @@ def _project_files():
 
 
 def coq_makefile():
-    mk = os.path.join(COQ, "Makefile")
+    """_CoqProject lists every .v under Model/ Gen/ Proofs/ Properties/ (sorted; coqdep
+    orders the build); it and the Makefile are rewritten only when the set changes."""
+    files = []
+    for sub in ("Model", "Gen", "Proofs", "Properties"):
+        d = os.path.join(COQ, sub)
+        if os.path.isdir(d):
+            files += sorted(f"{sub}/{f}" for f in os.listdir(d) if f.endswith(".v") and not f.startswith("."))
+    text = "-Q . Vy\n-arg -w -arg -notation-overridden,-deprecated-hint-without-locality\n" + "\n".join(files) + "\n"
     proj = os.path.join(COQ, "_CoqProject")
-    if not os.path.exists(mk) or os.path.getmtime(mk) < os.path.getmtime(proj):
+    mk = os.path.join(COQ, "Makefile")
+    old = open(proj).read() if os.path.exists(proj) else None
+    if old != text or not os.path.exists(mk):
+        with open(proj, "w") as f:
+            f.write(text)
         rc, out = sh(["coq_makefile", "-f", "_CoqProject", "-o", "Makefile"], cwd=COQ, timeout=120)
         if rc != 0:
             raise RuntimeError("coq_makefile failed: " + out)
